@@ -59,11 +59,12 @@ def _mk_signs(rc, d2pi, rbt, gfile=True):
     return body
 
 
-def ob_extrapolate(env):
-    """extrapolate_profiles: the appended pressure values continue the profile: p0*exp((psi-psi0)*p'/p0)"""
+def ob_extrapolate(env, d2pi=False):
+    """extrapolate_profiles: the appended pressure values continue the profile: p0*exp((psi-psi0)*p'/p0), psi0 and p' in the flux the profile
+    splines are built in (after psi_divide_twopi)"""
     psi_sol = 50.0
     try:
-        loc, orig, given, me, _ = c14.run_prologue(env, False, False, False, True, psi_sol=psi_sol)
+        loc, orig, given, me, _ = c14.run_prologue(env, False, d2pi, False, True, psi_sol=psi_sol)
     except UnboundLocalError as e:
         if "psiSOL" not in str(e):
             raise
@@ -73,8 +74,9 @@ def ob_extrapolate(env):
     psi1D, pressure, fpol1D = loc["psi1D"], loc["pressure"], loc["fpol1D"]
     n0 = 3
     env.claim("profiles_extended_together", len(psi1D) == len(pressure) == len(fpol1D) and len(psi1D) == n0 + 49)
-    p0, psi0 = orig["pressure"][-1], orig["psi1D"][-1]
-    dpdpsi = (orig["pressure"][-1] - orig["pressure"][-2]) / (orig["psi1D"][-1] - orig["psi1D"][-2])
+    div = TWOPI if d2pi else 1.0
+    p0, psi0 = orig["pressure"][-1], orig["psi1D"][-1] / div
+    dpdpsi = (orig["pressure"][-1] - orig["pressure"][-2]) / (orig["psi1D"][-1] / div - orig["psi1D"][-2] / div)
     if env.mode == "sym":
         env.add_uf_axioms()
     for k in (n0, n0 + 1, n0 + 48):
@@ -350,6 +352,10 @@ OBLIGATIONS.append(Ob("extrapolated_pressure_finite", ob_extrapolate_finite, tie
 OBLIGATIONS.append(Ob("extrapolated_pressure_continuous", ob_extrapolate, tier="quick", family="extrapolation",
                       encodes=["hypnotoad.cases.tokamak:TokamakEquilibrium.__init__"],
                       desc="extrapolate_profiles: appended pressure knots = p0*exp((psi-psi0)*p'/p0) (continuous at the last profile point), fpol constant, abscissa to psi_sol",
+                      stubs=["exp uninterpreted"], bounds="3 profile points, psi_sol=50 beyond the profile"))
+OBLIGATIONS.append(Ob("extrapolated_pressure_continuous_psi_divide_twopi", lambda env: ob_extrapolate(env, d2pi=True), tier="quick", family="extrapolation",
+                      encodes=["hypnotoad.cases.tokamak:TokamakEquilibrium.__init__"],
+                      desc="extrapolate_profiles with psi_divide_twopi: edge value, edge gradient and decay of the appended pressure knots are all in the divided flux",
                       stubs=["exp uninterpreted"], bounds="3 profile points, psi_sol=50 beyond the profile"))
 for _inc in (True, False):
     OBLIGATIONS.append(Ob("profile_splines_psi_%s" % ("increasing" if _inc else "decreasing"), _mk_splines(_inc), tier="quick", family="profiles",
